@@ -1,8 +1,10 @@
 package engines
 
 import (
+	"context"
 	"encoding/json"
 	"fmt"
+	"math/big"
 	"net"
 	"net/http"
 	"os"
@@ -14,14 +16,28 @@ import (
 	"time"
 
 	"cosmossdk.io/log"
+	abci "github.com/cometbft/cometbft/abci/types"
+	tmjson "github.com/cometbft/cometbft/libs/json"
+	coretypes "github.com/cometbft/cometbft/rpc/core/types"
 	cmtjrpcclient "github.com/cometbft/cometbft/rpc/jsonrpc/client"
 	cmttypes "github.com/cometbft/cometbft/types"
+	"github.com/cosmos/cosmos-sdk/client"
+	codectypes "github.com/cosmos/cosmos-sdk/codec/types"
+	sdk "github.com/cosmos/cosmos-sdk/types"
+	authtx "github.com/cosmos/cosmos-sdk/x/auth/tx"
+	"github.com/cosmos/gogoproto/proto"
+	"github.com/ethereum/go-ethereum/common"
+	ethtypes "github.com/ethereum/go-ethereum/core/types"
 	"github.com/ethereum/go-ethereum/eth/filters"
+	"github.com/ethereum/go-ethereum/rpc"
 	"github.com/gorilla/websocket"
 	"github.com/stretchr/testify/require"
 
+	chainapp "github.com/EscanBE/evermint/v12/app"
 	"github.com/EscanBE/evermint/v12/rpc/ethereum/pubsub"
 	evfilters "github.com/EscanBE/evermint/v12/rpc/namespaces/ethereum/eth/filters"
+	rpctypes "github.com/EscanBE/evermint/v12/rpc/types"
+	evmtypes "github.com/EscanBE/evermint/v12/x/evm/types"
 
 	"verifharness/hx"
 )
@@ -79,6 +95,95 @@ func startFakeWS(t *testing.T) *fakeWS {
 	return f
 }
 
+// pushEvent sends a complete ResultEvent (any registered event data) to every connected client
+func (f *fakeWS) pushEvent(ev coretypes.ResultEvent) {
+	bz, err := tmjson.Marshal(ev)
+	if err != nil {
+		return
+	}
+	msg := []byte(fmt.Sprintf(`{"jsonrpc":"2.0","id":1,"result":%s}`, string(bz)))
+	f.mu.Lock()
+	defer f.mu.Unlock()
+	for _, c := range f.conns {
+		_ = c.WriteMessage(websocket.TextMessage, msg)
+	}
+}
+
+// stub of the JSON-RPC backend: the filter API only needs the caps for what is exercised here
+type filterBackendStub struct{}
+
+func (filterBackendStub) GetBlockByNumber(rpctypes.BlockNumber, bool) (map[string]interface{}, error) {
+	return nil, fmt.Errorf("not available")
+}
+func (filterBackendStub) HeaderByNumber(rpctypes.BlockNumber) (*ethtypes.Header, error) {
+	return nil, fmt.Errorf("not available")
+}
+func (filterBackendStub) HeaderByHash(common.Hash) (*ethtypes.Header, error) {
+	return nil, fmt.Errorf("not available")
+}
+func (filterBackendStub) CometBFTBlockByHash(common.Hash) (*coretypes.ResultBlock, error) {
+	return nil, fmt.Errorf("not available")
+}
+func (filterBackendStub) CometBFTBlockResultByNumber(*int64) (*coretypes.ResultBlockResults, error) {
+	return nil, fmt.Errorf("not available")
+}
+func (filterBackendStub) GetLogs(common.Hash) ([][]*ethtypes.Log, error)    { return nil, nil }
+func (filterBackendStub) GetLogsByHeight(*int64) ([][]*ethtypes.Log, error) { return nil, nil }
+func (filterBackendStub) BlockBloom(*coretypes.ResultBlockResults) ethtypes.Bloom {
+	return ethtypes.Bloom{}
+}
+func (filterBackendStub) BloomStatus() (uint64, uint64) { return 0, 0 }
+func (filterBackendStub) RPCFilterCap() int32           { return 200 }
+func (filterBackendStub) RPCLogsCap() int32             { return 10000 }
+func (filterBackendStub) RPCBlockRangeCap() int32       { return 10000 }
+
+var evmTxQuery = "tm.event='Tx' AND message.module='evm'"
+
+// txEvent builds the event CometBFT publishes for one transaction of a block
+func txEvent(query string, txBytes []byte, resultData []byte, code uint32) coretypes.ResultEvent {
+	return coretypes.ResultEvent{Query: query,
+		Data:   cmttypes.EventDataTx{TxResult: abci.TxResult{Height: 10, Index: 0, Tx: txBytes, Result: abci.ExecTxResult{Code: code, Data: resultData, GasWanted: 100000, GasUsed: 50000}}},
+		Events: map[string][]string{"tm.event": {"Tx"}, "message.module": {"evm"}}}
+}
+
+func receiptData(logs []*ethtypes.Log) []byte {
+	receipt := &ethtypes.Receipt{Type: ethtypes.LegacyTxType, Status: ethtypes.ReceiptStatusSuccessful, CumulativeGasUsed: 50000, Logs: logs}
+	receipt.Bloom = ethtypes.CreateBloom(ethtypes.Receipts{receipt})
+	bz, _ := receipt.MarshalBinary()
+	anyRsp, _ := codectypes.NewAnyWithValue(&evmtypes.MsgEthereumTxResponse{Hash: common.HexToHash("0x01").Hex(), GasUsed: 50000, MarshalledReceipt: bz})
+	out, _ := proto.Marshal(&sdk.TxMsgData{MsgResponses: []*codectypes.Any{anyRsp}})
+	return out
+}
+
+// matches re-implements the eth_getLogs matching rule (address list, positional topics with wildcards)
+func matches(lg *ethtypes.Log, addrs []common.Address, topics [][]common.Hash) bool {
+	if len(addrs) > 0 {
+		ok := false
+		for _, a := range addrs {
+			ok = ok || a == lg.Address
+		}
+		if !ok {
+			return false
+		}
+	}
+	if len(topics) > len(lg.Topics) {
+		return false
+	}
+	for i, alt := range topics {
+		if len(alt) == 0 {
+			continue
+		}
+		ok := false
+		for _, h := range alt {
+			ok = ok || h == lg.Topics[i]
+		}
+		if !ok {
+			return false
+		}
+	}
+	return true
+}
+
 func (f *fakeWS) push(query string) {
 	q, _ := json.Marshal(query)
 	msg := []byte(fmt.Sprintf(`{"jsonrpc":"2.0","id":1,"result":{"query":%s,"data":null,"events":{}}}`, string(q)))
@@ -88,6 +193,8 @@ func (f *fakeWS) push(query string) {
 		_ = c.WriteMessage(websocket.TextMessage, msg)
 	}
 }
+
+var big1 = big.NewInt(1)
 
 var headerQuery = cmttypes.QueryForEvent(cmttypes.EventNewBlockHeader).String()
 var txQuery = cmttypes.QueryForEvent(cmttypes.EventTx).String()
@@ -182,6 +289,174 @@ func TestConcChild(t *testing.T) {
 		}
 		after := atomic.LoadInt64(&got)
 		fmt.Printf("CHILD-RESULT survived second-subscriber-events-before=%d after-first-unsubscribed=%d its-channel-closed=%v\n", before, after-before, atomic.LoadInt64(&closed) == 1)
+	case mode == "api":
+		// the real PublicFilterAPI: filters of the three kinds with random criteria, polled, read and uninstalled by
+		// concurrent JSON-RPC users while events of every shape arrive — hostile ones included: transactions a proposer
+		// put into a block although they cannot be decoded, carry no message, or embed a garbage Ethereum payload
+		seed := hx.Seed()
+		enc := chainapp.RegisterEncodingConfig()
+		srv := startFakeWS(t)
+		cl, err := cmtjrpcclient.NewWS("tcp://"+srv.ln.Addr().String(), "/websocket")
+		require.NoError(t, err)
+		require.NoError(t, cl.Start())
+		api := evfilters.NewPublicAPI(log.NewNopLogger(), client.Context{}.WithTxConfig(enc.TxConfig), cl, filterBackendStub{})
+		emitters := []common.Address{common.HexToAddress("0x1111111111111111111111111111111111111111"), common.HexToAddress("0x2222222222222222222222222222222222222222")}
+		tps := []common.Hash{common.HexToHash("0xaa"), common.HexToHash("0xbb"), common.HexToHash("0xcc")}
+		mkTx := func(r *hx.Rng) []byte {
+			b := enc.TxConfig.NewTxBuilder()
+			switch r.Intn(5) {
+			case 0: // no message at all
+			case 1: // an Ethereum message whose payload is garbage
+				_ = b.SetMsgs(&evmtypes.MsgEthereumTx{MarshalledTx: []byte{1, 2, 3, byte(r.U64())}, From: "evm1qqqq"})
+				opt, _ := codectypes.NewAnyWithValue(&evmtypes.ExtensionOptionsEthereumTx{})
+				b.(authtx.ExtensionOptionsTxBuilder).SetExtensionOptions(opt)
+			case 2: // an Ethereum message with an empty payload
+				_ = b.SetMsgs(&evmtypes.MsgEthereumTx{})
+			case 3:
+				return []byte{byte(r.U64()), byte(r.U64()), byte(r.U64())}
+			default: // a well-formed legacy transaction
+				tx := ethtypes.NewTx(&ethtypes.LegacyTx{Nonce: uint64(r.Intn(9)), Gas: 21000, GasPrice: big1, To: &emitters[0], Value: big1})
+				bz, _ := tx.MarshalBinary()
+				_ = b.SetMsgs(&evmtypes.MsgEthereumTx{MarshalledTx: bz, From: "evm1qqqq"})
+			}
+			bz, _ := enc.TxConfig.TxEncoder()(b.GetTx())
+			return bz
+		}
+		stop := make(chan struct{})
+		var wg sync.WaitGroup
+		var ncalls, nbad int64
+		watchdog := func(what string, fn func()) {
+			done := make(chan struct{})
+			go func() { fn(); close(done) }()
+			select {
+			case <-done:
+			case <-time.After(60 * time.Second):
+				fmt.Printf("CHILD-RESULT deadlock call=%s\n", what)
+				os.Exit(0)
+			}
+			atomic.AddInt64(&ncalls, 1)
+		}
+		for g := 0; g < 5; g++ {
+			wg.Add(1)
+			go func(g int) {
+				defer wg.Done()
+				r := hx.NewRng(seed ^ uint64(g+1)*0x9e3779b97f4a7c15)
+				type inst struct {
+					id   rpc.ID
+					kind int
+					crit filters.FilterCriteria
+				}
+				var mine []inst
+				for {
+					select {
+					case <-stop:
+						return
+					default:
+					}
+					switch r.Intn(8) {
+					case 0, 1:
+						crit := filters.FilterCriteria{}
+						for i, k := 0, r.Intn(4); i < k; i++ { // positional topics, wildcards included (also leading ones)
+							var alt []common.Hash
+							for j, m := 0, r.Intn(3); j < m; j++ {
+								alt = append(alt, hx.Pick(r, tps))
+							}
+							crit.Topics = append(crit.Topics, alt)
+						}
+						if r.Bool() {
+							crit.Addresses = []common.Address{hx.Pick(r, emitters)}
+						}
+						watchdog("eth_newFilter", func() {
+							if id, err := api.NewFilter(crit); err == nil {
+								mine = append(mine, inst{id, 0, crit})
+							}
+						})
+					case 2:
+						watchdog("eth_newBlockFilter", func() { mine = append(mine, inst{api.NewBlockFilter(), 1, filters.FilterCriteria{}}) })
+					case 3:
+						watchdog("eth_newPendingTransactionFilter", func() { mine = append(mine, inst{api.NewPendingTransactionFilter(), 2, filters.FilterCriteria{}}) })
+					case 4, 5:
+						if len(mine) == 0 {
+							continue
+						}
+						f := mine[r.Intn(len(mine))]
+						watchdog("eth_getFilterChanges", func() {
+							res, err := api.GetFilterChanges(f.id)
+							if err != nil {
+								return
+							}
+							if logs, ok := res.([]*ethtypes.Log); ok && f.kind == 0 {
+								for _, lg := range logs {
+									if !matches(lg, f.crit.Addresses, f.crit.Topics) {
+										atomic.AddInt64(&nbad, 1)
+									}
+								}
+							}
+						})
+					case 6:
+						if len(mine) == 0 {
+							continue
+						}
+						f := mine[r.Intn(len(mine))] // the id of ANY kind of filter, as a user may send it
+						watchdog("eth_getFilterLogs", func() { _, _ = api.GetFilterLogs(context.Background(), f.id) })
+					default:
+						if len(mine) == 0 {
+							watchdog("eth_uninstallFilter(unknown)", func() { api.UninstallFilter(rpc.ID("0xdeadbeef")) })
+							continue
+						}
+						k := r.Intn(len(mine))
+						f := mine[k]
+						mine = append(mine[:k], mine[k+1:]...)
+						watchdog("eth_uninstallFilter", func() { api.UninstallFilter(f.id) })
+					}
+					time.Sleep(time.Duration(r.Intn(1500)) * time.Microsecond)
+				}
+			}(g)
+		}
+		wg.Add(1)
+		go func() {
+			defer wg.Done()
+			r := hx.NewRng(seed ^ 0x51)
+			for {
+				select {
+				case <-stop:
+					return
+				default:
+				}
+				switch r.Intn(6) {
+				case 0, 1: // a receipt with logs of 0..4 topics
+					var logs []*ethtypes.Log
+					for i, k := 0, 1+r.Intn(3); i < k; i++ {
+						lg := &ethtypes.Log{Address: hx.Pick(r, emitters), Data: []byte{byte(i)}, BlockNumber: 10}
+						for j, m := 0, r.Intn(5); j < m; j++ {
+							lg.Topics = append(lg.Topics, hx.Pick(r, tps))
+						}
+						logs = append(logs, lg)
+					}
+					srv.pushEvent(txEvent(evmTxQuery, mkTx(r), receiptData(logs), 0))
+				case 2: // hostile transactions, as the plain Tx event the pending-transaction filters listen to
+					srv.pushEvent(txEvent(txQuery, mkTx(r), nil, uint32(r.Intn(2))))
+				case 3: // result data that is not a TxMsgData / a response without receipt
+					srv.pushEvent(txEvent(evmTxQuery, mkTx(r), []byte{9, 9, 9, byte(r.U64())}, 0))
+				case 4:
+					srv.pushEvent(coretypes.ResultEvent{Query: headerQuery, Data: cmttypes.EventDataNewBlockHeader{Header: cmttypes.Header{Height: int64(r.Intn(100)), ChainID: "evermint_9000-1"}}})
+				default: // event data missing or of another kind
+					srv.pushEvent(coretypes.ResultEvent{Query: hx.Pick(r, []string{evmTxQuery, txQuery, headerQuery}), Data: nil})
+					srv.pushEvent(coretypes.ResultEvent{Query: hx.Pick(r, []string{evmTxQuery, txQuery}), Data: cmttypes.EventDataNewBlockHeader{}})
+				}
+				time.Sleep(time.Duration(r.Intn(600)) * time.Microsecond)
+			}
+		}()
+		time.Sleep(time.Duration(hx.EnvInt("VERIF_CONC_MS", 2500)) * time.Millisecond)
+		close(stop)
+		finished := make(chan struct{})
+		go func() { wg.Wait(); close(finished) }()
+		select {
+		case <-finished:
+			fmt.Printf("CHILD-RESULT survived api-calls=%d logs-not-matching-their-filter=%d\n", atomic.LoadInt64(&ncalls), atomic.LoadInt64(&nbad))
+		case <-time.After(90 * time.Second):
+			fmt.Printf("CHILD-RESULT deadlock api-calls=%d\n", atomic.LoadInt64(&ncalls))
+		}
 	case strings.HasPrefix(mode, "stress"):
 		seed := hx.Seed()
 		es, srv := newEventSystem(t)
@@ -312,6 +587,22 @@ func TestEngineConc(t *testing.T) {
 		}
 		if mode == "second-subscriber" && strings.Contains(res, "after-first-unsubscribed=0") {
 			p.Oracle("C20-live-subscription-dropped", "a second subscriber of a query stops receiving events when the first one unsubscribes: %s", res)
+		}
+	}
+	// ---- the filter API under concurrent users and hostile events
+	for i := 0; i < n; i++ {
+		sd := seed*1000 + 500 + uint64(i)
+		res := child("api", sd)
+		p.Emit(fmt.Sprintf("conc api seed=%d", sd), strings.Fields(res)[0])
+		p.Count("api:" + strings.Fields(res)[0])
+		if strings.HasPrefix(res, "crashed") {
+			p.Oracle("C20-filter-api-crash", "filter API seed=%d kills the node process: %s", sd, res)
+		}
+		if strings.HasPrefix(res, "deadlock") {
+			p.Oracle("C20-filter-api-deadlock", "filter API seed=%d: a JSON-RPC call never returned: %s", sd, res)
+		}
+		if strings.Contains(res, "logs-not-matching-their-filter=") && !strings.Contains(res, "logs-not-matching-their-filter=0") {
+			p.Oracle("C20-filter-delivers-foreign-logs", "filter API seed=%d: eth_getFilterChanges returned logs that do not match the filter: %s", sd, res)
 		}
 	}
 	// ---- stress
